@@ -13,3 +13,9 @@
  */
 #define ATOMIC_STATIC_INLINE
 #include "parsec/sys/atomic.h"
+
+#if defined(ICLDISCO_PARSEC_VERIF)
+void (*parsec_verif_yield_fn)(int kind, volatile void *addr) = NULL;
+void (*parsec_verif_spin_fn)(void) = NULL;
+int  (*parsec_verif_event_fn)(int event, void *a, void *b) = NULL;
+#endif
